@@ -3,7 +3,8 @@ Gen_Stub.tla (operation sequences), stub driver against a scripted runtime end, 
 import json, random
 import pipeline, vlib
 
-BEH = '{"unreachable", "refuse", "drop-connect", "drop-register", "drop-after-register", "healthy"}'
+BEH = ('{"unreachable", "refuse", "drop-connect", "drop-register", "drop-after-register", "healthy", '
+       '"slow-configure", "configure-rejected", "drop-in-configure"}')
 
 
 class StubLife(pipeline.Module):
@@ -22,11 +23,13 @@ class StubLife(pipeline.Module):
         mc = "  MaxSess = 3\n  Behaviours = %s\n  AsIs = %s"
         cfgs = [
             dict(name="MC-StubLife", module="StubLife", spec="SSpec", consts=mc % (BEH, "FALSE"),
-                 invariants="FreshConn Usable OnceNotify", props="LateNotifyHarmless EventuallyNotified StartReturns"),
+                 invariants="FreshConn Usable OnceNotify OkMeansConfigured", props="LateNotifyHarmless EventuallyNotified StartReturns"),
             dict(name="NEG-StubLife-before-repair", module="StubLife", spec="SSpec", consts=mc % (BEH, "TRUE"),
                  invariants="FreshConn Usable OnceNotify", props="LateNotifyHarmless EventuallyNotified StartReturns", neg=True),
             dict(name="ops", consts='  MaxOps = %d\n  MaxStarts = %d\n  Behaviours = {"healthy", "refuse", "drop-after-register"}\n  Gates = {TRUE, FALSE}'
                  % (5 if th else 4, 3 if th else 2), workers=4),
+            dict(name="ops-configure", consts='  MaxOps = %d\n  MaxStarts = 3\n  Behaviours = {"healthy", "slow-configure", "configure-rejected", "drop-in-configure"}\n  Gates = {FALSE}'
+                 % (4 if th else 3), workers=4),
             dict(name="ops-behaviours", consts='  MaxOps = 3\n  MaxStarts = 2\n  Behaviours = %s\n  Gates = {FALSE}' % BEH),
         ]
         return cfgs
